@@ -197,6 +197,14 @@ def r19_config_invariance(facts_by_cfg, run_rules):
                         c.bad("width-const:%s:%s" % (cfg, norm(b["def"])), F.loc(b, n),
                               "the width-characteristic constant `%s` enters a computation: its value is not the same number in the two builds "
                               "(2.2e-16 vs 1.2e-7 for EPSILON), so results differ from the double-precision reference by more than rounding" % norm(d))
+        # the size of the float type in bytes / bits is such a constant too (`8 / size_of::<Float>()` lanes)
+        for b in facts.bodies:
+            for n in walk(facts.root(b)):
+                if n.get("k") == "Call" and (callee(n) or "") in ("core::mem::size_of", "core::mem::align_of", "core::mem::size_of_val", "core::mem::align_of_val") \
+                        and any(g in ("f64", "f32") for g in ((n.get("callee") or {}).get("gargs") or [])):
+                    hits += 1
+                    c.bad("width-const:%s:%s" % (cfg, norm(b["def"])), F.loc(b, n),
+                          "`%s` of the float type (8 in one build, 4 in the other) enters a computation: counts, chunk widths or loop bounds derived from it differ between the builds" % (callee(n) or "").rsplit("::", 1)[-1])
         # the same constants reached through the `approx` traits' defaults (`Float::default_epsilon()` is f64::EPSILON / f32::EPSILON)
         for b in facts.bodies:
             if (b.get("impl_trait_def") or "").startswith("approx::") or (facts.body(b.get("root", "")) or {}).get("impl_trait_def", "").startswith("approx::") \
